@@ -1556,10 +1556,24 @@ func (c *c07) runMboxCase(nops int) {
 			// down, then ack the packet out of the mailbox
 			sid := pickSid()
 			in := c.randKey()
-			if l := c.inbox[sid]; len(l) > 0 && c.p(85) {
+			if l := c.inbox[sid]; len(l) > 0 && c.p(80) {
 				in = l[c.rng.Intn(len(l))].inKey()
 				if c.p(70) {
 					c.opDelete([]CircuitKey{in}, false)
+				}
+			} else if mb := c.box(sid); mb != nil && c.p(60) {
+				// a packet that is queued but was not received yet (link down)
+				mb.pktCond.L.Lock()
+				var q []CircuitKey
+				for e := mb.repHead; e != nil; e = e.Next() {
+					q = append(q, e.Value.(*htlcPacket).inKey())
+				}
+				for e := mb.addHead; e != nil; e = e.Next() {
+					q = append(q, e.Value.(*pktWithExpiry).pkt.inKey())
+				}
+				mb.pktCond.L.Unlock()
+				if len(q) > 0 {
+					in = q[c.rng.Intn(len(q))]
 				}
 			}
 			c.mAck(sid, in)
@@ -1600,10 +1614,10 @@ func TestVerifC07Mailbox(t *testing.T) {
 	}
 	c := &c07{t: t, w: w, rng: rand.New(rand.NewSource(seed*104729 + 11)), dir: dir}
 	c.pf("FACT chans=%d ids=%d source=%d", c07Chans, c07Ids, 0)
-	cases := 700
+	cases := 1500
 	budget := 60 * time.Second
 	if tier == "thorough" {
-		cases = 15000
+		cases = 30000
 		budget = 10 * time.Minute
 	}
 	startT := time.Now()
